@@ -736,8 +736,9 @@ def shared_lines(codes, patterns):
 def codes_of(*funcs):
     out = []
     for f in funcs:
-        f = getattr(f, "__wrapped__", f)
         f = getattr(f, "__func__", f)
+        while hasattr(f, "__wrapped__"):
+            f = f.__wrapped__
         out.append(f.__code__)
     return out
 
